@@ -180,6 +180,10 @@ def _bc_for(kind, g, ndof, rng):
     return make_bc(kind, ndof * g.nnodes, rng)
 
 
+def _given(**kw):
+    return {k: v for k, v in kw.items() if v is not None}
+
+
 def _mt(mtype):
     return {} if mtype == 'default' else dict(matrix_type=MTYPES[mtype])
 
@@ -194,6 +198,8 @@ def case_stiffness(nx, ny, nz, h, E, nu, plane, xkind, bckind, bcdiag, positiona
     d = pym.DomainDefinition(nx, ny, nz, *h)
     g = Grid(nx, ny, nz, h)
     dim = g.dim
+    mat = _given(e_modulus=E, poisson_ratio=nu, plane=plane)       # None = argument omitted: documented defaults E=1, nu=0.3, plane strain
+    E, nu, plane = (1.0 if E is None else E), (0.3 if nu is None else nu), ('strain' if plane is None else plane)
     mode = '3d' if dim == 3 else plane.lower()
     x = make_x(xkind, g.nel, rng)
     n = dim * g.nnodes
@@ -202,14 +208,14 @@ def case_stiffness(nx, ny, nz, h, E, nu, plane, xkind, bckind, bcdiag, positiona
     s = pym.Signal('x', x.copy())
     if positional:
         args = [d] + ([bc] if bc is not None else []) + ([bcdiag] if (bc is not None and bcdiag is not None) else [])
-        m = pym.AssembleStiffness(s, pym.Signal('K'), *args, e_modulus=E, poisson_ratio=nu, plane=plane, **_mt(mtype))
+        m = pym.AssembleStiffness(s, pym.Signal('K'), *args, **mat, **_mt(mtype))
     else:
         kw = _mt(mtype)
         if bc is not None:
             kw['bc'] = bc
         if bcdiag is not None:
             kw['bcdiagval'] = bcdiag
-        m = pym.AssembleStiffness(s, domain=d, e_modulus=E, poisson_ratio=nu, plane=plane, **kw)
+        m = pym.AssembleStiffness(s, domain=d, **mat, **kw)
     m.response()
     K = dense(m.sig_out[0].state)
     tok = _type_ok(m.sig_out[0].state, mtype)
@@ -259,6 +265,8 @@ def case_mass(nx, ny, nz, h, rho, ndof, xkind, bckind, bcdiag, positional, mtype
     d = pym.DomainDefinition(nx, ny, nz, *h)
     g = Grid(nx, ny, nz, h)
     x = make_x(xkind, g.nel, rng)
+    mat = _given(material_property=rho, ndof=ndof)                 # None = argument omitted: documented defaults 1.0 and one dof per node
+    rho, ndof = (1.0 if rho is None else rho), (1 if ndof is None else ndof)
     bc = _bc_for(bckind, g, ndof, rng)
     es0 = d.element_size.copy()
     s = pym.Signal('x', x.copy())
@@ -266,11 +274,11 @@ def case_mass(nx, ny, nz, h, rho, ndof, xkind, bckind, bcdiag, positional, mtype
     if bcdiag is not None:
         kw['bcdiagval'] = bcdiag
     if positional and bc is not None:
-        m = pym.AssembleMass(s, pym.Signal('M'), d, bc, material_property=rho, ndof=ndof, **kw)
+        m = pym.AssembleMass(s, pym.Signal('M'), d, bc, **mat, **kw)
     else:
         if bc is not None:
             kw['bc'] = bc
-        m = pym.AssembleMass(s, domain=d, material_property=rho, ndof=ndof, **kw)
+        m = pym.AssembleMass(s, domain=d, **mat, **kw)
     m.response()
     M = dense(m.sig_out[0].state)
     Me = me_mass(g.h, g.dim, rho, ndof)
@@ -308,12 +316,14 @@ def case_poisson(nx, ny, nz, h, kappa, xkind, bckind, bcdiag, positional, mtype,
     kw = _mt(mtype)
     if bcdiag is not None:
         kw['bcdiagval'] = bcdiag
+    mat = _given(material_property=kappa)                          # None = argument omitted: documented default 1.0
+    kappa = 1.0 if kappa is None else kappa
     if positional and bc is not None:
-        m = pym.AssemblePoisson(s, pym.Signal('P'), d, bc, material_property=kappa, **kw)
+        m = pym.AssemblePoisson(s, pym.Signal('P'), d, bc, **mat, **kw)
     else:
         if bc is not None:
             kw['bc'] = bc
-        m = pym.AssemblePoisson(s, domain=d, material_property=kappa, **kw)
+        m = pym.AssemblePoisson(s, domain=d, **mat, **kw)
     m.response()
     P = dense(m.sig_out[0].state)
     Pe = pe_poisson(g.h, g.dim, kappa)
